@@ -24,10 +24,10 @@ import (
 // the functions translated, in dependency order
 var arithTargets = []string{"ConvertNewTokenToShares", "ConvertNewShareToDecToken", "TotalTokensWithAsset",
 	"GetDelegationTokensWithShares", "GetDelegationSharesFromTokens", "GetValidatorShares", "ValidateDelegatedAmount",
-	"SubtractDecCoinsWithRounding", "RewardsStarted"}
+	"SubtractDecCoinsWithRounding", "RewardsStarted", "GetIndexByAlliance"}
 
 // where each target lives
-var arithFiles = []string{"x/alliance/types/asset.go", "x/alliance/types/validator.go", "x/alliance/keeper/delegation.go"}
+var arithFiles = []string{"x/alliance/types/asset.go", "x/alliance/types/validator.go", "x/alliance/keeper/delegation.go", "x/alliance/types/params.go"}
 
 // sentinel errors → model error codes
 var errCode = map[string]string{"stakingtypes.ErrInsufficientShares": "insufficient_shares"}
@@ -43,7 +43,7 @@ var mutStyle = false
 
 var leanType = map[string]string{
 	"math.LegacyDec": "Dec", "math.Int": "Int", "AllianceAsset": "Asset", "AllianceValidator": "ValInfo",
-	"Delegation": "Delegation", "string": "Denom", "sdk.Coin": "Int", "sdk.DecCoins": "DecCoins", "time.Time": "Time", "bool": "Bool",
+	"Delegation": "Delegation", "string": "Denom", "sdk.Coin": "Int", "sdk.DecCoins": "DecCoins", "time.Time": "Time", "bool": "Bool", "RewardHistories": "List RewardHistory",
 }
 
 var fieldName = map[string]string{
@@ -135,6 +135,18 @@ func expr(e ast.Expr) string {
 			return "(" + expr(x.X) + " && " + expr(x.Y) + ")"
 		case token.LOR:
 			return "(" + expr(x.X) + " || " + expr(x.Y) + ")"
+		case token.EQL:
+			// rh.Alliance == alliance / rh.Alliance == "" on an element of a reward-history list
+			if sel, ok := x.X.(*ast.SelectorExpr); ok && sel.Sel.Name == "Alliance" {
+				if id, ok := sel.X.(*ast.Ident); ok && varType[id.Name] == "Hist" {
+					if lit, ok := x.Y.(*ast.BasicLit); ok && lit.Value == `""` {
+						return "(GoSem.allianceNone " + id.Name + ")"
+					}
+					if y, ok := x.Y.(*ast.Ident); ok {
+						return "(GoSem.allianceIs " + id.Name + " " + y.Name + ")"
+					}
+				}
+			}
 		}
 		fail("unsupported binary operator %s", x.Op)
 	case *ast.CallExpr:
@@ -269,6 +281,16 @@ func stmts(list []ast.Stmt, ind string) string {
 				if sel, ok := c.Fun.(*ast.SelectorExpr); ok && sel.Sel.Name == "NewDecCoins" {
 					varType[id.Name] = "DecCoins"
 				}
+				// ris = append(ris, rh) on reward-history lists
+				if f, ok := c.Fun.(*ast.Ident); ok && f.Name == "append" && mutStyle && x.Tok == token.ASSIGN && len(c.Args) == 2 {
+					a0, ok0 := c.Args[0].(*ast.Ident)
+					a1, ok1 := c.Args[1].(*ast.Ident)
+					if ok0 && ok1 && a0.Name == id.Name && varType[id.Name] == "Hists" && varType[a1.Name] == "Hist" {
+						b.WriteString(ind + id.Name + " := GoSem.appendHist " + id.Name + " " + a1.Name + "\n")
+						continue
+					}
+					fail("unsupported append")
+				}
 			}
 			if mutStyle {
 				if x.Tok == token.DEFINE {
@@ -285,10 +307,14 @@ func stmts(list []ast.Stmt, ind string) string {
 			}
 			v, ok := x.Value.(*ast.Ident)
 			xs, ok2 := x.X.(*ast.Ident)
-			if k, isId := x.Key.(*ast.Ident); !ok || !ok2 || !isId || k.Name != "_" || varType[xs.Name] != "DecCoins" {
+			if k, isId := x.Key.(*ast.Ident); !ok || !ok2 || !isId || k.Name != "_" || (varType[xs.Name] != "DecCoins" && varType[xs.Name] != "Hists") {
 				fail("unsupported range statement")
 			}
-			varType[v.Name] = "DecCoin"
+			if varType[xs.Name] == "Hists" {
+				varType[v.Name] = "Hist"
+			} else {
+				varType[v.Name] = "DecCoin"
+			}
 			b.WriteString(ind + "for " + v.Name + " in " + xs.Name + " do\n")
 			b.WriteString(stmts(x.Body.List, ind+"  "))
 		case *ast.IfStmt:
@@ -348,6 +374,9 @@ func translateFunc(fd *ast.FuncDecl) string {
 				continue // keeper methods that do not touch the store: the receiver is unused
 			}
 			for _, n := range f.Names {
+				if typeStr(f.Type) == "RewardHistories" {
+					varType[n.Name] = "Hists"
+				}
 				params = append(params, "("+n.Name+" : "+mapType(f.Type)+")")
 			}
 		}
@@ -384,7 +413,18 @@ func translateFunc(fd *ast.FuncDecl) string {
 		fail("%s: one result (or value, error) expected", fd.Name.Name)
 	}
 	res := mapType(fd.Type.Results.List[0].Type)
-	return fmt.Sprintf("def %s %s : Except Err %s := do\n%s", fd.Name.Name, strings.Join(params, " "), res, stmts(fd.Body.List, "  "))
+	pre := ""
+	if nres == 1 && len(fd.Type.Results.List[0].Names) == 1 && typeStr(fd.Type.Results.List[0].Type) == "RewardHistories" {
+		// a named slice result is a local that starts empty and is appended to (other named results are always assigned
+		// by an explicit `return e` in the translated functions and need no declaration)
+		n := fd.Type.Results.List[0].Names[0].Name
+		if !mutStyle {
+			fail("%s: named slice result outside the loop fragment", fd.Name.Name)
+		}
+		varType[n] = "Hists"
+		pre = "  let mut " + n + " : " + res + " := GoSem.nilHists\n"
+	}
+	return fmt.Sprintf("def %s %s : Except Err (%s) := do\n%s%s", fd.Name.Name, strings.Join(params, " "), res, pre, stmts(fd.Body.List, "  "))
 }
 
 func translateArith(repo, out string) {
